@@ -98,9 +98,20 @@ def lifecycle_case(case):
         ca.forget('ca2')
         rm_cert(d, ca)
     n_ok = lambda n: (lambda hooks, log: len(S.successes(hooks)) >= n * nc or len([h for h in hooks if C.hook_event(h) == 'post-operation']) >= n * nc + 3)
+    import time as _t
+    idle_t0 = [None]
+
+    def idle(hooks, log):
+        idle_t0[0] = idle_t0[0] or _t.monotonic()
+        return _t.monotonic() - idle_t0[0] > 2.5
     phases = [
         {'cfg': mk_cfg(case['k0'], ['a@example.org']), 'stop': n_ok(2), 'timeout': 60},
-        {'cfg': mk_cfg(case['k0'], ['b@example.org', 'c@example.org']), 'before': rm_cert, 'stop': n_ok(1), 'timeout': 60},
+        {'cfg': mk_cfg(case['k0'], ['b@example.org', 'c@example.org']), 'before': rm_cert, 'stop': n_ok(1), 'timeout': 60}]
+    if case.get('double_key'):
+        # the key type is changed, the daemon restarted with nothing due (a new key is generated and stored, the CA is not told),
+        # then changed again: the roll-over that follows must still be authorised by the key the CA holds
+        phases.append({'cfg': mk_cfg(case['kmid'], ['b@example.org', 'c@example.org']), 'stop': idle, 'timeout': 30, 'abort_on_timeout': False})
+    phases += [
         {'cfg': mk_cfg(case['k1'], ['b@example.org', 'c@example.org']), 'before': rm_cert, 'stop': n_ok(1), 'timeout': 60},
         {'cfg': mk_cfg(case['k1'], ['b@example.org', 'c@example.org']), 'before': forget, 'stop': n_ok(1), 'timeout': 60},
     ]
@@ -224,7 +235,8 @@ def run(tier):
             k1 = kts[(kts.index(k0) + 2) % 7]
         if 'rsa4096' in (k0, k1) and i % 4:
             k0, k1 = (k0 if k0 != 'rsa4096' else 'ecdsa_p384'), (k1 if k1 != 'rsa4096' else 'ed448')
-        life.append({'i': i, 'k0': k0, 'k1': k1, 'two_endpoints': bool(i % 2 == 0), 'eab': EAB_ALGS[i % 3] if i % 2 else None, 'eab_len': r.choice([16, 32, 64, 100]),
+        kmid = [t for t in ('ecdsa_p384', 'ed25519', 'ecdsa_p256', 'ed448') if t not in (k0, k1)][i % 2]
+        life.append({'i': i, 'k0': k0, 'k1': k1, 'kmid': kmid, 'double_key': i % 3 == 1, 'two_endpoints': bool(i % 2 == 0), 'eab': EAB_ALGS[i % 3] if i % 2 else None, 'eab_len': r.choice([16, 32, 64, 100]),
                      'nonce_on_get': bool(i % 3)})
     storms = [{'i': i, 'k0': kts[(i + 2) % 7] if (kts[(i + 2) % 7] != 'rsa4096' or i % 3 == 0) else 'ecdsa_p521', 'n_ids': r.choice([1, 2, 3]),
                'lens': [r.randint(1, 9) for _ in range(12)], 'nonce_on_get': bool(i % 2),
